@@ -14,6 +14,7 @@
   --   Cx.Spec.ChaCha.encrypt    (R) (key nonce) (pos : Nat) (data : Bytes) : Bytes   (= decrypt); RFC 8439 §2.4 with
   --                                initial counter c is `encrypt 20 key nonce (64*c) data`
   --   likewise keystreamOrig/encryptOrig, keystreamX/encryptX.
+  --   Cx.Spec.ChaCha.encryptFast : same value as `encrypt`, one block evaluation per 64 bytes (use this in drivers)
   --   Cx.Spec.ChaCha.validKey / validRounds : the domain guards (key 16 or 32 bytes; R ∈ {8,12,20})
 -/
 import CxVerif.Util.Bytes
@@ -136,7 +137,7 @@ def encryptOrig (R : Nat) (key nonce : Bytes) (pos : Nat) (data : Bytes) : Bytes
 def keystreamX (R : Nat) (key nonce24 : Bytes) (pos len : Nat) : Bytes := Stream.keystream (blockAtX R key nonce24) pos len
 def encryptX (R : Nat) (key nonce24 : Bytes) (pos : Nat) (data : Bytes) : Bytes := Stream.encrypt (blockAtX R key nonce24) pos data
 
-/-- blockwise evaluation of `encrypt` (equal by `Cx.Proofs.Stream.encryptFast_eq`) for long messages -/
+/-- blockwise evaluation of `encrypt` for long messages (equal: `Cx.Props.C03.chacha_encryptFast_eq`) -/
 def encryptFast (R : Nat) (key nonce : Bytes) (pos : Nat) (data : Bytes) : Bytes := Stream.encryptFast (blockAt R key nonce) pos data
 
 end Cx.Spec.ChaCha
